@@ -209,7 +209,7 @@ func runC06(c *core.Ctx) {
 		bx, by := ref.ECDSABlindPublic(curve, px, py, new(big.Int).SetBytes(h.blind), t3Ctx("ClientBlind"))
 		w.pre = append(w.pre, c06Pre{req: h.request(), blind: h.blind, clientKey: h.signer.ClientKeyEnc, brk: ref.ECCompress(curve, bx, by)})
 	}
-	nClients := 3
+	nClients := c.Pick(3, 6)
 	secrets := make([][]byte, nClients)
 	for i := range secrets {
 		secrets[i] = ScalarBytes(setup, N, 48)
@@ -290,7 +290,7 @@ func runC06(c *core.Ctx) {
 	}
 	c.Exhaustive("single-bit flips of every field of one honest request per client")
 	// 3. structured forgeries
-	nrep := c.Pick(2, 20)
+	nrep := c.Pick(2, 60)
 	for rep := 0; rep < nrep; rep++ {
 		for ci := 0; ci < nClients; ci++ {
 			if !c.Next() {
